@@ -235,6 +235,12 @@ class UnionMember(Typedef):
         super(UnionMember, self).__init__(name, type_name, definition, docstring)
         self.discriminator = discriminator
 
+    def dependencies(self):
+        yield self.type_name
+        if isinstance(self.discriminator, six.string_types):
+            for symbol in re.findall(r"\b[A-Za-z_][A-Za-z0-9_]*", self.discriminator):
+                yield symbol
+
 
 """ Composite kinds """
 
@@ -321,6 +327,8 @@ class Enum(_Container):
     def dependencies(self):
         for member in self.members:
             yield member.name
+            for dependency in member.dependencies():
+                yield dependency
 
 
 class _SerializableContainer(_Container, _Serializable):
